@@ -304,7 +304,7 @@ def setup(ctx):
                                                  "sigma_threshold": "threshold = score_mean + sigma_threshold",
                                                  "triangle_threshold": "compute_scores_map_threshold_triangle(scores_map)",
                                                  "nothing_above_threshold": "return None",
-                                                 "already_suppressed": "continue",
+                                                 "already_suppressed": ("continue", 0),
                                                  "suppress_neighbour": "remaining_coords.remove(nearby_coord_tuple)",
                                                  "symmetry_random_phi": "np.random.choice(add_phi",
                                                  "n_particles_cut": "rpos = rpos[0 : min("}),
